@@ -379,7 +379,7 @@ def _strategy(tier):
 
 CLAUSES = [
     Clause(
-        "history", _strategy, check_history, quick=150, thorough=400, shards_quick=4,
+        "history", _strategy, check_history, quick=150, thorough=3000, shards_quick=4,
         rule="history with node metadata set before a hyperedge insertion, or with a removal "
              "followed by a re-insertion of an existing (source,target) key; distinct by "
              "canonical JSON of the whole case",
